@@ -14,6 +14,7 @@ from checks.codec_common import make_unit_fn, minimize_keys, prog_case, replay_w
 from mcx.core import Ctx, Part, digest, pmap
 from odxmodel import harness, refodx, space
 from odxmodel.harness import jval, show
+from checks.c04 import loose_equal as c04_loose_equal
 
 PROPERTY = "C08"
 LEVEL = "model_checking"
@@ -79,6 +80,19 @@ def check_program(L: harness.Loaded, prog: Dict[str, Any], part: Part) -> None:
                                    f"parameter reports {pstatic} bits, its encoding occupies {claimed} bits ({pdu.hex()})")
             except (refodx.Reject, refodx.DontCare):
                 pass
+        # free = the caller can set the value: what was supplied for a free parameter is what the PDU carries
+        dec, dexc = harness.odx_decode(msg, pdu)
+        if dexc is None and isinstance(dec, dict):
+            try:
+                L.interp.encode(prog["pid"], values, request)
+                representable = True
+            except (refodx.Reject, refodx.DontCare):
+                representable = False
+            if representable:
+                for k, v in values.items():
+                    if k in free and k in dec and not c04_loose_equal(v, dec[k]):
+                        part.violation(f"C08/{tag}/free-parameter-value-not-honoured", case,
+                                       f"{k}={show(v)} supplied, the PDU {pdu.hex()} carries {show(dec[k])}")
         for v in values:
             if v not in free:
                 part.violation(f"C08/{tag}/settable-but-not-free", case, f"value for {v!r} accepted although it is not reported as free")
